@@ -451,11 +451,50 @@ class ErrFlow:
                 if any(n not in ('Ok', 'Some') for v, n in vmap.items() if v not in listed):
                     out.append(t['else'])
                 return out
+            # a test of the error itself: an edge taken only for a variant that carries no I/O error / only for NotFound
+            # is the *inspected* continuation that `_err_arms` judges (tolerated, or violated for NotFound on a mutating
+            # operation) — the failure is not "lost unseen" along it; an edge that cannot be taken on Err is dead
+            v = self.sl.local(f, r)
+            roots = {v, strip(v)}
+            out = []
+            for tb, cond in self._edges(f, b):
+                if self._classify_edge(cond, roots) in ('confine', 'confine-nf', 'dead'):
+                    continue
+                out.append(tb)
+            return out
         return f.succs(b)
 
+    # ---- the operation a Result comes from, looking through combinators that keep Err an Err
+    RESULT_COMBINATORS = {RESULT + m for m in ('map', 'map_err', 'inspect_err', 'inspect', 'as_ref', 'as_mut')} | \
+        {'std::result::Result::<&T, E>::cloned', 'std::result::Result::<&T, E>::copied', 'std::hint::must_use'}
+
+    def origin_of(self, f, call):
+        """`op(..).map(Some).map_err(wrap)` is still the Result *of op* as far as "which file operation failed" is
+        concerned: the receiver chain of Err-preserving Result combinators is followed back to the call that produced
+        the Result (one definition at every step; anything else keeps the combinator itself, which no tolerance accepts).
+        `and_then` is not followed: its closure can fail with an error of a different operation"""
+        seen = 0
+        while call is not None and not call.indirect and call.names() & self.RESULT_COMBINATORS and call.args and seen < 12:
+            seen += 1
+            pl = op_place(call.args[0])
+            if not pl or len(pl) != 1 or pl[0] <= f.argc:
+                break
+            defs = list(_origin_defs(f, pl[0]))
+            if len(defs) != 1 or defs[0][0] != 'call' or defs[0][3].indirect:
+                break
+            call = defs[0][3]
+        return call
+
     # ---- public: a call site
-    def site(self, f, call, depth=0):
-        key = (f.path, call.bb)
+    def site(self, f, call, depth=0, origin=None):
+        """origin: the operation whose Result reaches `call` as its receiver (only meaningful when `call` is an
+        Err-preserving combinator); by default it is recovered from the receiver chain"""
+        combinator = (not call.indirect) and bool(call.names() & self.RESULT_COMBINATORS)
+        if not combinator:
+            origin = call
+        elif origin is None:
+            origin = self.origin_of(f, call)
+        key = (f.path, call.bb, (origin.fn.path, origin.bb) if origin is not None else None)
         if key in self._memo:
             return self._memo[key]
         if self.overwritten(f, call) or (call.dest and len(call.dest) == 1 and call.dest[0] != 0 and self.alias_overwritten(f, call.dest[0])):
@@ -473,7 +512,7 @@ class ErrFlow:
         elif call.dest is None or len(call.dest) != 1:
             r = ('unproven', 'the Result is written into a field / has no destination')
         else:
-            r = self.place(f, list(call.dest), call, depth)
+            r = self.place(f, list(call.dest), origin, depth)
         self._memo[key] = r
         return r
 
@@ -588,7 +627,7 @@ class ErrFlow:
             sinks.add(c2.bb)
             if c2.dest and list(c2.dest) == [0]:
                 return ('ok', '')
-            return self.site(f, c2, depth + 1)
+            return self.site(f, c2, depth + 1, origin if names & self.RESULT_COMBINATORS else None)
         if idx == 0 and names & {R + 'unwrap_or_else'}:
             v, g = self._closure_of(f, c2, 1)
             if g is not None and diverges(g):
@@ -605,10 +644,17 @@ class ErrFlow:
             cases = helper_cases(self.prog, self.sl, g, 1, in_val=None, ctx_err=True)
             bad = []
             fresh = False
+            io_free_only = None      # every fresh Ok is produced under a variant that carries no I/O error
             for cs in cases:
                 if cs.kind == 'fresh_ok':
                     fresh = True
                     is_err, nf, conds = fresh_ok_guard(self.prog, self.sl, cs, self.pred)
+                    if not nf and cs.fn is g and self._confined_param(g, conds):
+                        # `Err(ParseError(_)) => Ok(..)` written as a handler: the same confinement to a variant that
+                        # carries no I/O error which `_err_arms` accepts for a match on the Result
+                        io_free_only = True if io_free_only is None else io_free_only
+                        continue
+                    io_free_only = False
                     if not nf:
                         bad.append('Ok(..) is produced for errors other than NotFound')
                 elif cs.kind not in ('err', 'same'):
@@ -616,12 +662,20 @@ class ErrFlow:
             if bad:
                 kind = 'violated' if any('NotFound' in b for b in bad) else 'unproven'
                 return (kind, 'the inline error handler of or_else: ' + '; '.join(bad))
-            if fresh and not self.is_delete(origin):
-                return ('violated', 'NotFound is tolerated on %s, which is not a delete' % (origin.name if origin else '?'))
+            # the same tolerance as for a `match` whose Err arm continues under the NotFound guard (_err_arms): a delete,
+            # or an operation that creates / changes nothing (the read of an optional input)
+            if fresh and io_free_only:
+                sinks.add(c2.bb)
+                nxt = self.site(f, c2, depth + 1)
+                return ('tolerated', 'the inline handler continues only for a variant that carries no I/O error') if nxt[0] == 'ok' else nxt
+            if fresh and not self.is_delete(origin) and self.mutates(origin):
+                return ('violated', 'NotFound is tolerated on %s, which is neither a delete nor a read of an optional input'
+                        % (origin.name if origin else '?'))
             sinks.add(c2.bb)
             nxt = self.site(f, c2, depth + 1)
             if nxt[0] == 'ok' and fresh:
-                return ('tolerated', 'best-effort delete: only NotFound is turned into success (inline handler)')
+                return ('tolerated', 'only NotFound is turned into success (inline handler) on a %s'
+                        % ('best-effort delete' if self.is_delete(origin) else 'read of an optional input'))
             return nxt
         if self.helper in names:
             if idx != 0:
@@ -747,6 +801,15 @@ class ErrFlow:
                         if (val[1].endswith('::eq') and oc is True) or (val[1].endswith('::ne') and oc is False):
                             return 'confine-nf'
         return None
+
+    def _confined_param(self, g, conds):
+        """one of the guards confines the error parameter of the handler `g` to variants without an I/O payload"""
+        i = 2 if g.kind == 'Closure' else 1
+        if i > g.argc:
+            return False
+        v = self.sl.local(g, i)
+        roots = {v, strip(v)}
+        return any(c.fn is g and self._classify_edge(c, roots) == 'confine' for c in conds)
 
     def _assigns_propagated_err(self, f, b):
         """the block builds `Err(..)` into a local all of whose consumers end in failure when it is Err
